@@ -6,11 +6,14 @@ EXTENDS Integers, Sequences, TLC, Json, IOUtils
 Events == ndJsonDeserialize(IOEnv.EVENTS)
 VARIABLES l, nontriv, failed
 vars == <<l, nontriv, failed>>
+Min2(a, b) == IF a < b THEN a ELSE b
+Max2(a, b) == IF a > b THEN a ELSE b
+(* pre = children already present when probing starts (parsing is not refused by cardinality); tried = pre + 3 *)
 Verdict(e) ==
   CASE e.k = "create" ->
          IF e.outcome # "ok" THEN "creation_path_raised"
          ELSE IF e.dt_got # e.dt_want THEN "child_has_the_standard_datatype_not_the_profile_one"
-         ELSE IF e.max_want # -1 /\ e.accepted # e.max_want THEN "profile_cardinality_not_enforced_under_strict"
+         ELSE IF e.max_want # -1 /\ e.accepted # Min2(Max2(e.max_want, e.pre), e.tried) THEN "profile_cardinality_not_enforced_under_strict"
          ELSE IF e.max_want = -1 /\ e.accepted < e.tried THEN "profile_allows_repetition_but_strict_refused"
          ELSE "ok"
     [] e.k = "same" -> IF e.with # e.without THEN "restated_profile_changes_behaviour" ELSE "ok"
